@@ -111,6 +111,28 @@ WantBlock(c, g, d, n, i) == LET b == c.cf[d][n].bl[i]
 
 MtimeCollision(c, d, n) == \E m \in DOMAIN c.cf[d] : m # n /\ c.cf[d][m].sz = c.cf[d][n].sz /\ c.cf[d][m].mt = c.cf[d][n].mt
 
+(* C11: links and empty directories (present: lk, dr; recorded: clk, cdr) *)
+LinksOf(s) == IF "lk" \in DOMAIN s THEN [lk |-> s.lk, dr |-> s.dr, clk |-> s.clk, cdr |-> s.cdr, dra |-> s.dra]
+              ELSE [lk |-> [d \in D |-> <<>>], dr |-> [d \in D |-> <<>>], clk |-> [d \in D |-> <<>>], cdr |-> [d \in D |-> <<>>]]
+LinksSynced(k) == \A d \in D : k.lk[d] = k.clk[d]
+(* recorded links / empty directories that are missing or different on the disks (check and fix report and repair them) *)
+(* check, fix and scrub open files by path: a name that the scan would class as a hard link of another name (same inode,
+   later in scan order) still is a file with that content *)
+PathFs(f, k) ==
+    [d \in D |-> LET hn == {n \in DOMAIN k.lk[d] : k.lk[d][n][1] = "hard" /\ k.lk[d][n][2] \in DOMAIN f[d]}
+                 IN Eager([n \in DOMAIN f[d] \cup hn |-> IF n \in DOMAIN f[d] THEN f[d][n] ELSE f[d][k.lk[d][n][2]]])]
+(* check and fix look at a recorded hard link through the inodes: both names must be regular files that share an inode
+   (check.c:1598-1650); in the projection the names of an inode group are one file (the first in scan order) and hard links to it *)
+RegName(k, f, d, x) == x \in DOMAIN f[d] \/ (x \in DOMAIN k.lk[d] /\ k.lk[d][x][1] = "hard")
+RepOf(k, d, x) == IF x \in DOMAIN k.lk[d] /\ k.lk[d][x][1] = "hard" THEN k.lk[d][x][2] ELSE x
+LinkOK(k, f, d, n) ==
+    LET r == k.clk[d][n]
+    IN IF r[1] = "hard" THEN RegName(k, f, d, n) /\ RegName(k, f, d, r[2]) /\ RepOf(k, d, n) = RepOf(k, d, r[2])
+       ELSE n \in DOMAIN k.lk[d] /\ k.lk[d][n] = r
+AllDirs(k, d) == ToSet(k.dr[d]) \cup (IF "dra" \in DOMAIN k THEN ToSet(k.dra[d]) ELSE {})
+LinkErrorsF(k, f) == \E d \in D : (\E n \in DOMAIN k.clk[d] : ~LinkOK(k, f, d, n))
+                                  \/ (\E i \in 1..Len(k.cdr[d]) : k.cdr[d][i] \notin AllDirs(k, d))
+
 (* C01: complete recovery *)
 C01_Fix(c, f0, pr0, s, o) ==
     LET bad == {x \in AllFiles(c) :
@@ -120,6 +142,8 @@ C01_Fix(c, f0, pr0, s, o) ==
                   \/ \E i \in 1..Len(c.cf[x[1]][x[2]].bl) : s.fs[x[1]][x[2]].b[i] # c.cf[x[1]][x[2]].bl[i].h
                   \/ (s.fs[x[1]][x[2]].mt # c.cf[x[1]][x[2]].mt /\ ~MtimeCollision(c, x[1], x[2]))}
     IN IF bad # {} THEN <<<<"C01", "fix-did-not-restore", bad>>>>
+       ELSE IF "lk" \in DOMAIN s /\ LinkErrorsF(LinksOf(s), s.fs)
+            THEN <<<<"C01", "fix-did-not-restore-links-or-dirs", [lk |-> s.lk, clk |-> s.clk, dr |-> s.dr, cdr |-> s.cdr]>>>>
        ELSE IF Len(o.unrec) # 0 \/ o.exit = "unrecoverable" THEN <<<<"C01", "fix-reported-unrecoverable", o>>>>
        ELSE <<>>
 
@@ -199,18 +223,6 @@ C19_Wrong(c, f) == {y \in AllFiles(c) \X (1..64) :
                          /\ i <= Len(f[d][n].b)
                          /\ HashOf(f[d][n].b[i], BlkLen(c.cf[d][n].sz, i)) # c.cf[d][n].bl[i].h}
 
-(* C11: links and empty directories (present: lk, dr; recorded: clk, cdr) *)
-LinksOf(s) == IF "lk" \in DOMAIN s THEN [lk |-> s.lk, dr |-> s.dr, clk |-> s.clk, cdr |-> s.cdr]
-              ELSE [lk |-> [d \in D |-> <<>>], dr |-> [d \in D |-> <<>>], clk |-> [d \in D |-> <<>>], cdr |-> [d \in D |-> <<>>]]
-LinksSynced(k) == \A d \in D : k.lk[d] = k.clk[d]
-(* recorded links / empty directories that are missing or different on the disks (check and fix report and repair them) *)
-(* check, fix and scrub open files by path: a name that the scan would class as a hard link of another name (same inode,
-   later in scan order) still is a file with that content *)
-PathFs(f, k) ==
-    [d \in D |-> LET hn == {n \in DOMAIN k.lk[d] : k.lk[d][n][1] = "hard" /\ k.lk[d][n][2] \in DOMAIN f[d]}
-                 IN Eager([n \in DOMAIN f[d] \cup hn |-> IF n \in DOMAIN f[d] THEN f[d][n] ELSE f[d][k.lk[d][n][2]]])]
-LinkErrors(k) == \E d \in D : (\E n \in DOMAIN k.clk[d] : n \notin DOMAIN k.lk[d] \/ k.lk[d][n] # k.clk[d][n])
-                              \/ (\E i \in 1..Len(k.cdr[d]) : k.cdr[d][i] \notin ToSet(k.dr[d]))
 LinkCounts(k) == [d \in D |-> [eq |-> Cardinality({n \in DOMAIN k.clk[d] : n \in DOMAIN k.lk[d] /\ k.lk[d][n] = k.clk[d][n]}),
                                rm |-> Cardinality({n \in DOMAIN k.clk[d] : n \notin DOMAIN k.lk[d]}),
                                chg |-> Cardinality({n \in DOMAIN k.clk[d] : n \in DOMAIN k.lk[d] /\ k.lk[d][n] # k.clk[d][n]})]]
@@ -373,7 +385,7 @@ CheckStep ==
     /\ IsEvent("Check")
     /\ LET a == Ev.args
            r == CheckResultX(C, PathFs(fs, lks), par, PresentOf(a), a.audit, a.range, ExtOf(a))
-           lerr == LinkErrors(lks)
+           lerr == LinkErrorsF(lks, fs)
            xexit == IF r.exit = "ok" /\ lerr THEN (IF a.audit THEN "error" ELSE "recoverable") ELSE r.exit
            okO == (xexit = Ev.out.exit \/ (lerr /\ Ev.out.exit = "unrecoverable"))
                   /\ r.derr = PairSet(Ev.out.derr) /\ (a.audit \/ r.perr = PairSet(Ev.out.perr))
@@ -382,7 +394,7 @@ CheckStep ==
           /\ diag' = IF okO /\ okS THEN <<>> ELSE <<"Check", l, [okO |-> okO, okS |-> okS], r, Ev.out>>
           /\ pviol' = C12_Frame("Check", Ev.state) \o
                       (IF ~ParityInvalid(C) /\ NoDifference(C, fs) /\ (\A lv \in PresentOf(a) : Len(par[lv]) >= AllocatedMax(C))
-                          /\ a.range.bstart = 0 /\ a.range.bcount = 0 /\ ~LinkErrors(lks)
+                          /\ a.range.bstart = 0 /\ a.range.bcount = 0 /\ ~LinkErrorsF(lks, fs)
                        THEN C04_Check(C, fs, par, a, Ev.out) ELSE <<>>) \o
                       (IF afterfix /\ Ev.out.rc # 0 THEN <<<<"C01", "check-after-fix-finds-errors", Ev.out>>>> ELSE <<>>)
           \* a full check without any error ends a damage episode
@@ -399,7 +411,7 @@ FixStep ==
            okF == SameFs(r.fs, Ev.state.fs)
            okP == ParAgrees(r.par, Ev.state)
            okC == LoggedC(Ev.state) = C
-           okO == /\ (r.out.exit = Ev.out.exit \/ (LinkErrors(lks) /\ r.out.exit \in {"ok", "recovered"} /\ Ev.out.exit \in {"recovered", "unrecoverable"}))
+           okO == /\ (r.out.exit = Ev.out.exit \/ (LinkErrorsF(lks, fs) /\ r.out.exit \in {"ok", "recovered"} /\ Ev.out.exit \in {"recovered", "unrecoverable"}))
                   /\ r.out.unrec = PairSet(Ev.out.unrec)
                   /\ r.out.recovered = PairSet(Ev.out.recovered)
            c01 == clean /\ WithinBounds(C, fs, par) /\ ~StampOnlyChange(C, fs)
@@ -435,6 +447,18 @@ FaultStep ==
                   ELSE IF Ev.out.rc = 0 THEN "io-error-exit-ok"
                   ELSE IF healthy THEN "io-error-stripe-recorded-synced-and-healthy"
                   ELSE "none"
+           \* "all other stripes are processed normally": for a failing read, every stripe other than the one of the fault ends
+           \* as it does in the run without the fault (SyncResult / ScrubResult of the specification): synced when it would be
+           \* synced, not marked bad unless it would be.  Not for sync -h (an error in the pre-hash phase stops the command
+           \* before any stripe is processed) and not for failing parity writes (the command stops at once).
+           readfault == p >= 0 /\ a.fkind \in {"data-read", "parity-read"} /\ "opts" \in DOMAIN a /\ "srcs" \in DOMAIN a /\ ~a.opts.prehash
+           rS == IF Ev.e = "SyncFault" THEN SyncResult(C, fs, fs, par, a.now, [links |-> LinkCounts(lks)] @@ a.opts, SrcsOf(a)).C
+                 ELSE ScrubResult(C, PathFs(fs, lks), par, PlanSel(C, a.plan), a.now, PresentOf(a)).C
+           spread == IF Ev.e = "SyncFault"
+                     THEN {q \in 0..(AllocatedMax(rS) - 1) : q # p /\ ((AllSynced(rS, q) /\ ~AllSynced(newc, q))
+                                                                        \/ (InfoAt(newc, q).bad /\ ~InfoAt(rS, q).bad))}
+                     ELSE {q \in 0..(Len(rS.info) - 1) : q # p /\ InfoAt(newc, q) # InfoAt(rS, q)}
+           others == IF (Ev.e = "SyncFault" /\ readfault) \/ (Ev.e = "ScrubFault" /\ p >= 0 /\ "present" \in DOMAIN a) THEN spread ELSE {}
        IN /\ Follow(Ev.state, par)
           /\ diag' = <<>>
           /\ clean' = FALSE
@@ -443,6 +467,7 @@ FaultStep ==
                               IF n \in Fresh(L0, fs, d) /\ n \in DOMAIN fs[d] THEN fs[d][n].b
                               ELSE IF n \in DOMAIN ghost[d] THEN ghost[d][n] ELSE <<>>]]
           /\ pviol' = (IF p >= 0 /\ sig # "none" THEN <<<<"C08", sig, [kind |-> a.fkind, pos |-> p, rc |-> Ev.out.rc, rules |-> a.rules]>>>> ELSE <<>>) \o
+                      (IF others # {} THEN <<<<"C08", "io-error-changes-the-outcome-of-other-stripes", [kind |-> a.fkind, pos |-> p, others |-> others]>>>> ELSE <<>>) \o
                       (IF Ev.state.sha.f # sha.f THEN <<<<"C12", Ev.e \o "-changed-data", <<>>>>>> ELSE <<>>) \o
                       (IF Ev.e = "ScrubFault" /\ Ev.state.sha.p # sha.p THEN <<<<"C12", "ScrubFault-changed-parity", <<>>>>>> ELSE <<>>)
           /\ dmg' = (dmg \/ pw)
